@@ -196,4 +196,25 @@ theorem upgradeObject_frame (r : Repo) (id : Str) (t : SpecV) (m : Meta) (keep :
         rw [AL.get_insert_ne _ _ _ _ hne]
         exact hf.2.2 id' hne
 
+/-! ### destination paths of internal recursive copies -/
+
+/-- **an internal recursive copy or move keeps every level below the copied directory**: for a source
+    `base/rest` the destination is `dst/rest` — `rest` unchanged, whatever characters `base` is made of
+    (a name repeated in `rest`, non-ASCII names) -/
+theorem internal_destination (base rest dst : Str) (hb : base ≠ []) :
+    logicalPathInDstDirInternal (base ++ '/' :: rest) base dst =
+      parsePath ((if dst.getLast? == some '/' then dst else dst ++ ['/']) ++ rest) := by
+  unfold logicalPathInDstDirInternal
+  have h1 : base.isEmpty = false := by cases base with | nil => exact absurd rfl hb | cons _ _ => rfl
+  have h2 : (base ++ '/' :: rest).drop (base.length + 1) = rest := by
+    have : base ++ '/' :: rest = (base ++ ['/']) ++ rest := by simp
+    rw [this, List.drop_append_of_le_length (by simp)]
+    simp
+  simp only [h1, Bool.false_eq_true, if_false, h2]
+
+/-- copying the whole object (`base` empty) keeps the complete source path -/
+theorem internal_destination_root (src dst : Str) :
+    logicalPathInDstDirInternal src [] dst = parsePath ((if dst.getLast? == some '/' then dst else dst ++ ['/']) ++ src) := by
+  simp [logicalPathInDstDirInternal]
+
 end Rocfl
